@@ -272,17 +272,18 @@ def kVector := S "vector"
 def kMetadata := S "metadata"
 
 def Enums.documented : Enums where
-  indexTypes := [tVectorFlat, tVectorVamana, tText, tString, tInteger, tFloat, tStringArray]
-  metrics := [S "euclidean", S "cosine", S "dot", S "hamming", S "jaccard", mHaversine]
-  v1Metrics := [S "euclidean", S "cosine", S "dot"]
-  quantizers := [qNone, qBinary, qProduct]
+  -- each list is a SET of accepted values; tools/facts_c18 emits them sorted (byte order of the Go strings)
+  indexTypes := [tFloat, tInteger, tString, tStringArray, tText, tVectorFlat, tVectorVamana]
+  metrics := [S "cosine", S "dot", S "euclidean", S "hamming", mHaversine, S "jaccard"]
+  v1Metrics := [S "cosine", S "dot", S "euclidean"]
+  quantizers := [qBinary, qNone, qProduct]
   binMetrics := [S "hamming", S "jaccard"]
   analysers := [S "standard"]
   vecOps := [S "near"]
   textOps := [S "containsAll", opContainsAny]
-  strOps := [opEquals, S "notEquals", S "startsWith", S "greaterThan", S "greaterThanOrEquals", S "lessThan", S "lessThanOrEquals", opInRange]
-  intOps := [opEquals, S "notEquals", S "greaterThan", S "greaterThanOrEquals", S "lessThan", S "lessThanOrEquals", opInRange]
-  floatOps := [opEquals, S "notEquals", S "greaterThan", S "greaterThanOrEquals", S "lessThan", S "lessThanOrEquals", opInRange]
+  strOps := [opEquals, S "greaterThan", S "greaterThanOrEquals", opInRange, S "lessThan", S "lessThanOrEquals", S "notEquals", S "startsWith"]
+  intOps := [opEquals, S "greaterThan", S "greaterThanOrEquals", opInRange, S "lessThan", S "lessThanOrEquals", S "notEquals"]
+  floatOps := [opEquals, S "greaterThan", S "greaterThanOrEquals", opInRange, S "lessThan", S "lessThanOrEquals", S "notEquals"]
   saOps := [S "containsAll", opContainsAny]
 
 /-! ## uuid.Parse (github.com/google/uuid v1.6.0) -/
